@@ -27,7 +27,7 @@ def pair_model(rng, n_species=None, target='LAMMPS'):
     sp_ = rng.sample(SPECIES, n_species or rng.randint(1, 3))
     pairs = [(a, b) for i, a in enumerate(sp_) for b in sp_[i:]]
     rng.shuffle(pairs)
-    lines = ['[Tabulation]', 'target : %s' % target, 'nr : %d' % (12 if target != 'DLPOLY' else 12), 'cutoff : 5.5', '', '[Pair]']
+    lines = ['[Tabulation]', 'target : %s' % target, 'nr : %d' % (12 if target != 'DLPOLY' else 12), 'cutoff : 5.5', '']
     entries = []
     for a, b in pairs:
         if rng.random() < 0.5: a, b = b, a
